@@ -396,6 +396,7 @@ type lockOpts struct {
 	// Backend adjusts the recording backend before the server starts; Patience: see h.Live.Patience.
 	Backend  func(be *h.Backend)
 	Patience time.Duration
+	Settle   bool // see h.Live.Settle
 	// Cfg adjusts the server configuration; Pace: see h.Live.Pace.
 	Cfg  func(cfg *h.Config)
 	Pace time.Duration
@@ -416,6 +417,7 @@ func runLockstepOpt(prefix string, pc ref.PConfig, alpha []ref.Cmd, hist []int, 
 		live = h.NewLive(cfg, be, pc.ImplicitTLS)
 		if opts != nil {
 			live.Patience = opts.Patience
+			live.Settle = opts.Settle
 			live.Pace = opts.Pace
 		}
 		st := ref.PState{TLS: pc.ImplicitTLS, Bin: "no"}
